@@ -119,6 +119,8 @@ def args_rule(ck, mod, f, label):
     # tag2 == c0 + clen0 - 8
     target = aff.Lin.sym(("a", ci)).add(aff.Lin.sym(("a", li))).add(aff.Lin.const(-TAG))
     ok, why = aff.prove_equal(A, a[3], target, call.b)
+    if ok is None:
+        raise Broken("%s: the position of the received tag cannot be related to c + clen - 8 by the affine cursor analysis (%s): unrecognised loop / cursor shape" % (f.name, why))
     ck.ob(ok, "R-C03-ARGS", f.name, "received-tag-position[%s]" % label,
           "tag2 == c + clen - 8 on every path (cursor advanced in lock-step with the remaining length, all residues)",
           "the received tag is not read from c + clen - 8 on every path: %s" % why, where=where)
@@ -129,6 +131,8 @@ def args_rule(ck, mod, f, label):
           where=where)
     tlen = aff.Lin.sym(("a", li)).add(aff.Lin.const(-TAG))
     ok2, why2 = aff.prove_equal(A, a[1], tlen, call.b)
+    if ok2 is None:
+        raise Broken("%s: the length passed to check_tag cannot be related to clen - 8 by the affine analysis (%s)" % (f.name, why2))
     ck.ob(ok2, "R-C04-ARGS", f.name, "wipe-length[%s]" % label, "check_tag receives the full plaintext length clen - 8",
           "the length passed for wiping is not clen - 8 on every path: %s" % why2, where=where)
 
@@ -142,7 +146,7 @@ def _reach_from_entry_avoiding(f, target, avoid):
     return f.can_reach(first, target, avoid_insts=avoid)
 
 
-def cmp_rule(ck, mod, label):
+def cmp_rule(ck, mod, label, only_over=False):
     """check_tag under the call-site constant size = 8 (R-C03-ARGS proves every call site passes 8):
     symbolic evaluation in the GF(2)/OR term domain with the constant-trip compare loop followed; then
       (1) find the last value D on the way to the result whose bits are pure ORs of difference bits
@@ -167,10 +171,10 @@ def cmp_rule(ck, mod, label):
     rets = [p for p in paths if p.end[0] == "ret"]
     datab = [e for p in paths for e in p.events if e[0] in ("cond-data",)]
     if len(paths) != 1 or len(rets) != 1:
-        ck.bad("R-C03-CMP", CT, "single-path[%s]" % label,
-               "with size = 8 and no plaintext the function has %d paths: its control flow depends on the tag bytes (early exit?) - the comparison is not a fixed function evaluated uniformly"
-               % len(paths), where=where0)
-        return 1
+        # the verdict may still be the right function of the tags (an early exit returns the same value): that is a timing
+        # matter (C07), not a verdict matter; the single-summary comparison below cannot decide it
+        raise Broken("%s: with size = 8 and no plaintext the function has %d paths - its control flow depends on the tag bytes (early exit?); the verdict function is not decided "
+                     "by this rule for such code (constant-time rule C07 reports it)" % (CT, len(paths)))
     p = rets[0]
     R = p.end[1]
     if not irx.is_word(R):
@@ -318,18 +322,19 @@ def cmp_rule(ck, mod, label):
           "every realisable non-zero accumulated difference (%d values, exhaustive) -> result -1" % (nreal - 1),
           "accumulated difference %s yields %s instead of -1: some wrong tags are accepted or mis-reported" % (badrej or ("?", "?")), where=relpath(rets_i[0].where))
     # constant control flow of the compare part is implied by the single path; the wipe is C04's
-    wipe_rule(ck, mod, f, label, pi, li, si, envs)
+    wipe_rule(ck, mod, f, label, pi, li, si, envs, only_over=only_over)
     return 1
 
 
-def wipe_rule(ck, mod, f, label, pi, li, si, envs):
+def wipe_rule(ck, mod, f, label, pi, li, si, envs, only_over=False):
     from .. import cov
     where0 = relpath("%s:%d" % (f.file, f.line))
     # (1) coverage: the stores to the plaintext buffer tile exactly [0, plaintext_len) in every (alignment, length) class
-    n, bad, used = cov.coverage(f, pi, li, fixed_args={si: TAG})
+    n, bad, used = cov.coverage(f, pi, li, fixed_args={si: TAG}, only_over=only_over)
     ck.ob(bad is None, "R-C04-WIPE", CT, "wipe-coverage[%s]" % label,
-          "the stores to the plaintext buffer cover exactly bytes [0, plaintext_len) in all %d (alignment, length) classes "
-          "(lengths 0..63 individually, residues mod 8 for longer ones; trip counts from ScalarEvolution)" % n,
+          ("the stores to the plaintext buffer stay inside bytes [0, plaintext_len) in all %d (alignment, length) classes " if only_over else
+           "the stores to the plaintext buffer cover exactly bytes [0, plaintext_len) in all %d (alignment, length) classes ") % n +
+          "(lengths 0..63 individually, residues mod 8 for longer ones; trip counts from ScalarEvolution)",
           "for %s: %s - on a rejection %s" % (bad[0] if bad else "", bad[1] if bad else "",
                                               "candidate plaintext survives or memory beyond the buffer is modified"), where=where0)
     stores = [I for I in f.insts if I.op == "store" and I.id in used]
